@@ -1663,6 +1663,10 @@ class Interp:
                 f = self.isnone(lv if isinstance(rv, NoneV) else rv)
             elif isinstance(rv, Const) and isinstance(rv.value, bool):
                 f = self.truth(lv) if rv.value else f_not(self.truth(lv))
+            elif isinstance(lv, Const) and isinstance(rv, Const):
+                f = TRUE if lv.value == rv.value else FALSE  # enum members / interned constants
+            elif lv is rv:
+                f = TRUE
             else:
                 f = self.free("IS[" + ",".join(sorted([key(lv), key(rv)])) + "]", taint_of(lv) | taint_of(rv))
             return f if isinstance(op, ast.Is) else f_not(f)
@@ -1925,6 +1929,12 @@ class Interp:
             return Unknown(f"{v.text}.{attr}", v.taint)
         if isinstance(v, (Const, NoneV, BoolV, TupleV)):
             return Unknown(f"{key(v)}.{attr}")
+        if isinstance(v, Opaque):
+            for ci in self.repo.classes.values():
+                if ci.name == v.cls:
+                    if self.repo.lookup_method(ci, attr) is None:
+                        return Unknown(f"{key(v)}.{attr}", v.taint)
+                    break
         return BoundAPI(v, attr)
 
     def class_attr(self, fr: Frame, c: ClassInfo, attr: str) -> V:
@@ -2337,6 +2347,15 @@ class Interp:
                     return BoolV(self.free(f"EXCL({key(subject)})", frozenset({"EXT"})))
                 if attr == "has_filter":
                     return BoolV(atom("HAS"))
+            if "EXT" in recv.taint:
+                # a further method of the pattern filter (not one of its two primitives): interpreted with the filter as `self`;
+                # whatever it does with the patterns goes through is_excluded / has_filter or stays unknown
+                for ci in self.repo.classes.values():
+                    if ci.name == recv.cls:
+                        m = self.repo.lookup_method(ci, attr)
+                        if m is not None and not m.is_abstract and attr not in ("__init__", "is_excluded", "has_filter") and "singledispatchmethod" not in m.decorators:
+                            return self.call_function(m, args, kwargs, recv, None, e, fr)
+                        break
             if recv.cls == "Parser" or attr == "parse" and "Parser" in recv.cls:
                 return Unknown(f"{recv.cls}.{attr}()", recv.taint | {"PARSED"}, False)
             if recv.cls == "ImportConverter":
